@@ -106,7 +106,7 @@ var failedStarts = [][]Op{
 
 var collideCases = []string{
 	"service-kind-instance-vs-builtin", "service-kind-instance-twice", "builtin-vs-service-kind-instance",
-	"exc2-vs-builtin", "builtin-vs-exc2", "exc2-twice",
+	"exc2-vs-builtin", "builtin-vs-exc2", "exc2-twice", "operator-removes-exc2",
 }
 
 func perms(n int) [][]int {
@@ -205,6 +205,12 @@ func workList(c *lib.Ctx) (items []item, complete bool) {
 		for i, ops := range sequences(httpAlphabet, 3) {
 			hh = append(hh, History{Kind: "ops", OneTime: i%2 == 1, Ops: ops})
 		}
+		// beyond the enumerated bound: a seeded sample of the length-4 sequences
+		for i, ops := range sequences(httpAlphabet, 4) {
+			if len(ops) == 4 && pick.next()%8 == 0 {
+				hh = append(hh, History{Kind: "ops", OneTime: i%2 == 1, Ops: ops})
+			}
+		}
 	} else {
 		n := 0
 		for _, ops := range sequences(httpAlphabet, 2) {
@@ -225,7 +231,7 @@ func workList(c *lib.Ctx) (items []item, complete bool) {
 		hh = append(hh, History{Kind: "ops", OneTime: i%2 == 1, Ops: ops})
 	}
 	// heavy ones (5 s per removal) first so that the round-robin spreads them evenly
-	for r := 3; r >= 0; r-- {
+	for r := 4; r >= 0; r-- {
 		for _, h := range hh {
 			if httpRemovals(h.Ops) == r {
 				items = append(items, item{kind: "http", hs: []History{h}})
@@ -269,10 +275,11 @@ func run(c *lib.Ctx) {
 		"after a service disconnect the registries are polled for at most 3 s for the expected state before a leftover is reported",
 		"ports of HTTP listeners are picked below the ephemeral range; an unexpected bind failure makes the history inconclusive",
 	)
-	// rigs live in memory-backed temp directories when there is one: every listener add and
-	// remove is a synchronous sqlite write
-	if os.Getenv("C16_CHILD") == "" {
-		if st, err := os.Stat("/dev/shm"); err == nil && st.IsDir() && os.Getenv("C16_KEEP_TMPDIR") == "" {
+	// rigs live in memory-backed temp directories (every listener add and remove is a
+	// synchronous sqlite write): the driver sets VERIF_RIG_BASE; for a worker started by
+	// hand fall back to /dev/shm
+	if os.Getenv("VERIF_RIG_BASE") == "" && os.Getenv("C16_CHILD") == "" {
+		if st, err := os.Stat("/dev/shm"); err == nil && st.IsDir() {
 			os.Setenv("TMPDIR", "/dev/shm")
 		}
 	}
@@ -312,7 +319,8 @@ func run(c *lib.Ctx) {
 		c.Checkpoint()
 	}
 	c.Observe("work-items", int64(mine))
-	c.Exhaustive(complete && only == "")
+	// exhaustive only if every enumerated case was run to its end (an inconclusive case was not)
+	c.Exhaustive(complete && only == "" && inconclusives == 0)
 }
 
 func replay(c *lib.Ctx) {
@@ -320,7 +328,7 @@ func replay(c *lib.Ctx) {
 		Kind string `json:"kind"`
 	}
 	if err := json.Unmarshal(c.Replay, &probe); err != nil {
-		c.Inconclusive("replay: witness is not JSON: " + err.Error())
+		inconclusive(c, "replay: witness is not JSON: " + err.Error())
 		return
 	}
 	switch probe.Kind {
@@ -333,11 +341,23 @@ func replay(c *lib.Ctx) {
 		json.Unmarshal(c.Replay, &sc)
 		runSvcChild(c, sc)
 	default:
-		c.Inconclusive("replay: unknown witness kind " + probe.Kind)
+		inconclusive(c, "replay: unknown witness kind " + probe.Kind)
 	}
 }
 
+var reportedSigs = map[string]int{}
+
+func allReportedOften(fs []finding) bool {
+	for _, f := range fs {
+		if reportedSigs[f.Sig] < 3 {
+			return false
+		}
+	}
+	return true
+}
+
 func report(c *lib.Ctx, f finding, w History) {
+	reportedSigs[f.Sig]++
 	c.Violation(f.Sig, fmt.Sprintf("%s [after step %d: %s]", f.What, f.Step+1, opAt(w.Ops, f.Step)),
 		map[string]any{"kind": "ops", "onetime": w.OneTime, "ops": w.Ops, "step": f.Step, "detail": f.Detail})
 }
@@ -405,7 +425,7 @@ func runAlone(c *lib.Ctx, h History, freshEach bool) {
 		report(c, f, wf)
 	}
 	if broken != "" {
-		c.Inconclusive("history " + h.Key() + ": " + broken)
+		inconclusive(c, "history " + h.Key() + ": " + broken)
 	}
 }
 
@@ -428,7 +448,7 @@ func runBatch(c *lib.Ctx, hs []History) {
 		if s == nil {
 			var err error
 			if s, err = newSession(c, h.OneTime, false); err != nil {
-				c.Inconclusive("rig: " + err.Error())
+				inconclusive(c, "rig: " + err.Error())
 				s = nil
 				continue
 			}
@@ -449,7 +469,14 @@ func runBatch(c *lib.Ctx, hs []History) {
 		c.Observe("histories", 1)
 		c.SampleSome(400, func() any { return w })
 		clean := s.broken == "" && s.cleanup([]string{"A", "B"})
-		if len(s.findings) > nf {
+		if len(s.findings) > nf && allReportedOften(s.findings[nf:]) {
+			// a systematic defect: its class already has its witnesses, only count it
+			for _, f := range s.findings[nf:] {
+				c.Violation(f.Sig, f.What, nil)
+			}
+			s.close()
+			clean = false
+		} else if len(s.findings) > nf {
 			// minimise: does the sequence (with its clean-up removals) alone show the same class?
 			// (the batch rig is closed first: two rigs must never be active in one process,
 			// they share the working directory)
@@ -482,11 +509,18 @@ func runBatch(c *lib.Ctx, hs []History) {
 			}
 		}
 		if s.broken != "" {
-			c.Inconclusive("history " + h.Key() + ": " + s.broken)
+			inconclusive(c, "history " + h.Key() + ": " + s.broken)
 		}
 		if !clean {
 			s.close() // idempotent
 			s = nil
 		}
 	}
+}
+
+var inconclusives int
+
+func inconclusive(c *lib.Ctx, what string) {
+	inconclusives++
+	c.Inconclusive(what)
 }
